@@ -251,7 +251,7 @@ func project(n *exh.Node) []Ent {
 	// the height of the newest block recorded in the BFT votes (0 right after genesis: empty window)
 	func() {
 		defer func() { recover() }()
-		infos, _, err := liskbft.VerifC02DumpVotes(n.Exec.VerifC03ConsensusStore())
+		infos, _, err := liskbft.VerifC02DumpVotes(diffdb.New(n.DB, []byte{10}))
 		if err != nil {
 			return
 		}
@@ -287,10 +287,11 @@ func canonDigest(n *exh.Node) string { return exh.Digest(canonDump(n)) }
 
 // ---- scenario ----
 type sstep struct {
-	kind   string // add | add_invalid | del | del_refused | restore
+	kind   string // genesis | add | add_invalid | del | del_refused | restore
 	block  *blockchain.Block
 	script *exh.Script
 	save   bool
+	quiet  bool // set-up step of a long scenario: replayed, but neither recorded nor crashed
 }
 
 type StepRec struct {
@@ -347,6 +348,9 @@ type CrashRec struct {
 func runStep(n *exh.Node, s sstep) exh.Result {
 	n.ABI.S = s.script
 	switch s.kind {
+	case "genesis":
+		// first start on an empty data directory: Executer.Init processes the genesis block and prepares the cache
+		return exh.Result{Err: n.Reattach()}
 	case "add", "add_invalid":
 		return n.ProcessValidated(s.block, false)
 	case "restore":
@@ -363,6 +367,7 @@ type planner struct {
 	scripts map[string]*exh.Script
 	pending []*blockchain.Block // blocks deleted with saveTemp, lowest height last; restored in order
 	seq     int
+	stall   int // family "stall": number of blocks forged during the finality stall
 }
 
 func (p *planner) events(h uint32) *exh.Script {
@@ -435,6 +440,18 @@ func (p *planner) next(t int) sstep {
 			p.pending = append(p.pending, n.Tip())
 			return sstep{kind: "del", save: true, script: &exh.Script{}}
 		}
+	case "stall":
+		// finality stalls while only the light validator forges eventful blocks; then the heavy one ends the stall: one block
+		// makes every event list of the stalled heights prunable at once (keepEventsForHeights is small)
+		by := n.Vals[0]
+		if t > p.stall {
+			by = n.Vals[1]
+		}
+		s := sstep{kind: "add", script: &exh.Script{BeforeEvents: []*blockchain.Event{exh.MakeEvent(uint64(t), tip.Height+1, 1)}}}
+		n.ABI.S = s.script
+		s.block = n.NextValid(exh.Build{By: by})
+		s.quiet = t <= p.stall
+		return s
 	case "jump":
 		// validator 0 (weight 1) forges a run, then validator 1 (weight 3) forges two blocks: prevotes then precommits for
 		// the whole run at once
@@ -477,6 +494,7 @@ func main() {
 	out := flag.String("out", "cases.jsonl", "output")
 	scen := flag.Int("scenarios", 3, "number of scenarios")
 	steps := flag.Int("steps", 10, "steps per scenario")
+	stall := flag.Int("stall", 60, "length of the finality stall of the stall scenario (0 = no such scenario)")
 	flag.Parse()
 	r := hx.NewRng(hx.SeedFromEnv())
 	o := hx.NewOut(*out)
@@ -489,8 +507,15 @@ func main() {
 		}
 	}()
 	families := []string{"big", "restore", "jump", "random"}
-	for sc := 0; sc < *scen; sc++ {
+	total := *scen
+	if *stall > 0 {
+		total++
+	}
+	for sc := 0; sc < total; sc++ {
 		family := families[sc%len(families)]
+		if sc == *scen {
+			family = "stall"
+		}
 		opt := exh.Options{N: 1 + r.Intn(4)}
 		if r.Intn(2) == 0 {
 			opt.KeepEvents, opt.KeepEventsSet = r.Intn(3), true
@@ -504,7 +529,12 @@ func main() {
 			}
 		case "jump":
 			opt.N, opt.Weights, opt.PreCommit, opt.Certificate = 2, []uint64{1, 3}, 3, 3
+		case "stall":
+			opt.N, opt.Weights, opt.PreCommit, opt.Certificate = 2, []uint64{1, 3}, 3, 3
+			opt.KeepEvents, opt.KeepEventsSet = 1, true
+			nsteps = *stall + 4
 		}
+		opt.NoInit = true
 		// ---- phase A: build the scenario on a counting FS, record the op log ----
 		fsA := newCFS()
 		optA := opt
@@ -514,15 +544,31 @@ func main() {
 			panic(err)
 		}
 		opt.GenesisTime = n.Opt.GenesisTime
-		pl := &planner{n: n, r: r, family: family, scripts: map[string]*exh.Script{}}
+		pl := &planner{n: n, r: r, family: family, scripts: map[string]*exh.Script{}, stall: *stall}
 		var plan []sstep
 		var recs []StepRec
 		var dumpsA [][]exh.KV
 		for t := 0; t < nsteps; t++ {
-			s := pl.next(t)
-			tip := n.Tip().Header
-			fin0, _ := n.Finalized()
-			rec := StepRec{K: "step", Sc: sc, Family: family, T: t, Op: s.kind, Expect: s.kind == "add" || s.kind == "del" || s.kind == "restore",
+			var s sstep
+			if t == 0 {
+				s = sstep{kind: "genesis", script: &exh.Script{}}
+			} else {
+				s = pl.next(t)
+			}
+			if s.quiet {
+				runStep(n, s)
+				plan = append(plan, s)
+				recs = append(recs, StepRec{})
+				dumpsA = append(dumpsA, nil)
+				continue
+			}
+			tip := n.Genesis.Header
+			fin0 := uint32(0)
+			if t > 0 {
+				tip = n.Tip().Header
+				fin0, _ = n.Finalized()
+			}
+			rec := StepRec{K: "step", Sc: sc, Family: family, T: t, Op: s.kind, Expect: s.kind == "add" || s.kind == "del" || s.kind == "restore" || s.kind == "genesis",
 				Save: s.save, RT: s.kind == "restore", Before: project(n), DBefore: canonDigest(n)}
 			if s.block != nil {
 				rec.ID, rec.H = hex.EncodeToString(s.block.Header.ID), s.block.Header.Height
@@ -531,6 +577,9 @@ func main() {
 				}
 			} else {
 				rec.ID, rec.H = hex.EncodeToString(tip.ID), tip.Height
+			}
+			if s.kind == "genesis" {
+				opt.GenesisTime = n.Opt.GenesisTime
 			}
 			dumpsA = append(dumpsA, canonDump(n))
 			wal0 := walRecords(fsA.mem)
@@ -553,6 +602,9 @@ func main() {
 		dumpsA = append(dumpsA, canonDump(n))
 		// ---- phase B: every sync boundary of every step ----
 		for t, s := range plan {
+			if s.quiet {
+				continue
+			}
 			for j := int64(0); ; j++ {
 				fsB := newCFS()
 				optB := opt
@@ -590,14 +642,19 @@ func main() {
 							cr.ReopenErr = fmt.Sprint("panic: ", p)
 						}
 					}()
-					nr, err := exh.New(optR)
+					nr, err := exh.New(optR) // NoInit: the database as found on disk, before the node touches it
 					if err != nil {
 						cr.ReopenErr = err.Error()
 						return
 					}
-					cr.ReopenOK = true
 					cr.Recovered = project(nr)
 					dg := canonDigest(nr)
+					defer func() { _ = nr.DB.Close() }()
+					if err := nr.Reattach(); err != nil { // the node starts: Init (genesis if absent), PrepareCache
+						cr.ReopenErr = "init: " + err.Error()
+						return
+					}
+					cr.ReopenOK = true
 					cr.EqBefore, cr.EqAfter = dg == recs[t].DBefore, dg == recs[t].DAfter
 					if !cr.EqBefore && !cr.EqAfter {
 						cr.DiffBefore = exh.DiffKeys(canonDump(nr), dumpsA[t])
@@ -616,7 +673,6 @@ func main() {
 					if !res.OK() {
 						cr.NextErr = exh.ErrClass(res)
 					}
-					_ = nr.DB.Close()
 				}()
 				o.Put(cr)
 				if j >= total {
